@@ -199,14 +199,36 @@ func (ImplCodec) Exec(line string) (obs string) {
 		}
 		agg, _ := strconv.Atoi(tk[2])
 		xb, _ := strconv.ParseUint(tk[3], 16, 32)
-		h, err := wt.NewHeader(wt.AggregationMethod(agg), math.Float32frombits(uint32(xb)), lay)
-		if err != nil {
-			return errObs(err)
+		mk := func(l []wt.ArchiveInfo) string {
+			h, err := wt.NewHeader(wt.AggregationMethod(agg), math.Float32frombits(uint32(xb)), l)
+			if err != nil {
+				return errObs(err)
+			}
+			if tk[0] == "newheaderhex" {
+				return "ok " + hexOrDash(h.AppendTo(nil))
+			}
+			return "ok " + headerObs(h)
 		}
-		if tk[0] == "newheaderhex" {
-			return "ok " + hexOrDash(h.AppendTo(nil))
+		fresh := mk(lay)
+		// a list of mixed provenance: its first element comes out of another, already laid-out
+		// list of the same length (so it carries that list's first offset), the others are new;
+		// NewHeader lays the list out itself, so the result must be the same
+		if len(lay) >= 2 && lay[0].SecondsPerPoint() > 0 && lay[0].NumberOfPoints() >= 2 && lay[0].NumberOfPoints() < 1<<20 {
+			var parts []string
+			st, n := int64(lay[0].SecondsPerPoint()), int64(lay[0].NumberOfPoints())
+			for range lay {
+				parts = append(parts, fmt.Sprintf("%ds:%ds", st, st*n))
+				st, n = st*2, n*2
+			}
+			if donor, err := wt.ParseArchiveInfoList(strings.Join(parts, ",")); err == nil && len(donor) == len(lay) {
+				lay2, _ := parseLay(tk[1]) // NewHeader lays its argument out in place: start from new elements
+				mixed := append([]wt.ArchiveInfo{donor[0]}, lay2[1:]...)
+				if m := mk(mixed); m != fresh {
+					return "fresh/mixed differ: " + fresh + " | " + m
+				}
+			}
 		}
-		return "ok " + headerObs(h)
+		return fresh
 	}
 	return textExec(tk)
 }
